@@ -32,6 +32,19 @@ def cases(tier, seed):
         kind = scat.ALL_KINDS[i % len(scat.ALL_KINDS)]
         cfg = scat.gen_config(rng, kind)
         cfg["det"] = scat.gen_grid(rng, maxn=8 if kind.startswith(("lens", "tmatrix")) else 11)
+        if i % 5 in (1, 3):
+            # descending or unsorted axes: a flipped image, a negative spacing, rows picked in any order
+            nx, ny = cfg["det"]["shape"]
+            sel = {"x": list(range(nx)), "y": list(range(ny))}
+            for ax, m in (("x", nx), ("y", ny)):
+                u = rng.random()
+                if u < 0.45:
+                    sel[ax] = sel[ax][::-1]
+                elif u < 0.7 and m >= 3:
+                    sel[ax] = [int(v) for v in rng.permutation(m)[:int(rng.integers(2, m + 1))]]
+            if sel["x"] == list(range(nx)) and sel["y"] == list(range(ny)):
+                sel["y" if ny > 1 else "x"] = sel["y" if ny > 1 else "x"][::-1]
+            cfg["det"]["sel"] = sel
         cost = 8 if kind.startswith(("lens", "tmatrix", "multi")) else 1
         out.append({"id": "pos-%d" % i, "kind": "pos", "ckind": kind, "cfg": cfg, "seed": [seed, "pos", i], "cost": cost})
     # more than a thousand locations in one call (theories may work through long lists in blocks): grid vs crops vs points
@@ -203,6 +216,7 @@ def _run_pos(case):
     nx, ny = G.shape
     t = cfg["theory"]["t"]
     resid, flags = {}, {}
+    flags["result_on_detector_axes_in_detector_order"] = bool(np.array_equal(hg.x.values, det.x.values) and np.array_equal(hg.y.values, det.y.values))
     # points
     hp_ = _holo(scat.build_detector(scat.grid_to_points(cfg["det"])), cfg, s, th)
     resid["points@" + t] = relmax(hp_.values, G.ravel())
